@@ -63,6 +63,8 @@ func c22Scenario() *explore.Scenario {
 			srvSettings := settingsMenu[x.Choose("server-settings", 3)]
 			cliMode := x.Choose("client-settings", 3)      // 0 has the selected proto, 1 lacks it, 2 nil map
 			alpsFirst := x.Choose("alps-position", 2) == 1 // the server lists ALPS before / after ALPN
+			// the server also acknowledges server_name (empty extension, RFC 6066) after everything else
+			sniAck := x.Choose("alps-followed-by-sni-ack", 2) == 1
 			// the hooked server can read the client's EncryptedExtensions only when it requests a client
 			// certificate (otherwise it rolls its transcript forward past the predicted client Finished
 			// while sending its own flight), so ALPS negotiation always runs with RequestClientCert
@@ -115,9 +117,14 @@ func c22Scenario() *explore.Scenario {
 			hk.Out = func(n int, t uint8, d []byte) []byte {
 				if vers == tls.VersionTLS13 && t == 8 {
 					if alpsFirst {
-						return editEEFront(d, cp, srvSettings)
+						d = editEEFront(d, cp, srvSettings)
+					} else {
+						d = editEE(d, cp, srvSettings)
 					}
-					return editEE(d, cp, srvSettings)
+					if sniAck {
+						d = editEE(d, 0, []byte{})
+					}
+					return d
 				}
 				if vers == tls.VersionTLS12 && t == 2 {
 					if sp, ok := parseServerHello(d); ok {
@@ -126,12 +133,15 @@ func c22Scenario() *explore.Scenario {
 						} else {
 							sp.exts = append(sp.exts, shExt{cp, srvSettings})
 						}
+						if sniAck {
+							sp.exts = append(sp.exts, shExt{0, []byte{}})
+						}
 						return sp.build()
 					}
 				}
 				return d
 			}
-			what := fmt.Sprintf("%s vers=%04x alpn=%q codepoint=%d server-settings=%dB client-settings-mode=%d clientauth=%v alps-first=%v", g.Name, vers, proto, cp, len(srvSettings), cliMode, clientAuth, alpsFirst)
+			what := fmt.Sprintf("%s vers=%04x alpn=%q codepoint=%d server-settings=%dB client-settings-mode=%d clientauth=%v alps-first=%v sni-ack-last=%v", g.Name, vers, proto, cp, len(srvSettings), cliMode, clientAuth, alpsFirst, sniAck)
 			var cleanup func()
 			hs := peer.Run(ccfg, g.ID, scfg, peer.Opts{Prepare: g.prepare(), Echo: true,
 				OnConns: func(u *tls.UConn, s *tls.Conn) { cleanup = installHooks(s, hk) }})
@@ -216,7 +226,7 @@ func c22Scenarios(thorough bool) []*explore.Scenario { return []*explore.Scenari
 func init() {
 	register(&Prop{ID: "C22", Level: "exploration", Variant: "A", Scenarios: c22Scenarios,
 		Run: func(c *explore.Check, thorough bool) {
-			c.Rule = "every parrot carrying an ALPS extension + custom specs with the old, the new and both codepoints x version {1.3, 1.2} x ALPN selected {h2, http/1.1, none} x offered server codepoint {17513, 17613} x server settings {empty, 1 B, 300 B} x ALPS listed {after, before} ALPN in the server's message x Config.ApplicationSettings {has the protocol, lacks it, nil} x server {no client auth, RequestClientCert}: the server (verif hooks) adds ALPS to EncryptedExtensions / ServerHello and reads the client's EncryptedExtensions into its transcript; TLS 1.3 + ALPN => handshake completes (server Finished check passed), PeerApplicationSettings == server bytes, one client EncryptedExtensions with the negotiated codepoint and the configured settings; no ALPN => client error; TLS 1.2 => settings never exposed. distinct = case"
+			c.Rule = "every parrot carrying an ALPS extension + custom specs with the old, the new and both codepoints x version {1.3, 1.2} x ALPN selected {h2, http/1.1, none} x offered server codepoint {17513, 17613} x server settings {empty, 1 B, 300 B} x ALPS listed {after, before} ALPN in the server's message x {nothing after it, an (RFC 6066) empty server_name acknowledgement as the last extension} x Config.ApplicationSettings {has the protocol, lacks it, nil} x server {no client auth, RequestClientCert}: the server (verif hooks) adds ALPS to EncryptedExtensions / ServerHello and reads the client's EncryptedExtensions into its transcript; TLS 1.3 + ALPN => handshake completes (server Finished check passed), PeerApplicationSettings == server bytes, one client EncryptedExtensions with the negotiated codepoint and the configured settings; no ALPN => client error; TLS 1.2 => settings never exposed. distinct = case"
 			c.Assumptions = []string{"'rejects under TLS < 1.3' is read as 'does not accept': an error or silently ignoring both satisfy the oracle", "a server codepoint the hello did not offer is outside this property"}
 			runAll(c, c22Scenarios(thorough), 0)
 			c.Gate(c.Total.Counters["alps_negotiated"] > 100, "non-vacuity: %d negotiated ALPS handshakes", c.Total.Counters["alps_negotiated"])
